@@ -14,6 +14,7 @@ PRETEND_SIG = bytes.fromhex("3044022000" + "11" * 31 + "022000" + "22" * 31 + "0
 PRETEND_KEY = bytes.fromhex("02" + "ab" * 32)
 PRETEND_KEY2 = bytes.fromhex("03" + "cd" * 32)
 PRETEND_SIG2 = bytes.fromhex("3044022000" + "33" * 31 + "022000" + "44" * 31 + "01")
+PRETEND_KEY3 = bytes.fromhex("02" + "ef" * 32)     # only ever listed together with PRETEND_SIG, which a later pair re-assigns
 
 
 class ScriptGen:
@@ -210,6 +211,12 @@ class ScriptGen:
         self.features.add("codesep")
 
     def s_checksig(self):
+        if self.r.chance(12):
+            # a key of the pretend list whose signature was re-assigned to another key: a mismatch, reported as such
+            self.emit(PRETEND_SIG, PRETEND_KEY3, "OP_CHECKSIG")
+            self.st.append("n")
+            self.features.add("sig")
+            return
         self.emit(PRETEND_SIG, PRETEND_KEY, self.r.choice(["OP_CHECKSIG", "OP_CHECKSIG", "OP_CHECKSIGVERIFY"]))
         if self.toks[-1] == "OP_CHECKSIG":
             self.st.append("n")
